@@ -4,7 +4,7 @@ pub fn run(ctx: &Ctx, rep: &mut Report) {
     let leg = if <P as Gx>::IS_FM { "fm" } else { "ris" };
     // singles: every bit length x every degree (aggregation 1), several capacities
     let mut id = 0usize;
-    let reps = if ctx.thorough() { 40 } else { 8 };
+    let reps = if ctx.thorough() { 400 } else { 8 };
     for (bi, &n) in BITS.iter().enumerate() {
         for ext in 1..=6usize {
             for r in 0..reps {
@@ -18,7 +18,7 @@ pub fn run(ctx: &Ctx, rep: &mut Report) {
         }
     }
     // batches mixing seeded, unseeded and aggregated members
-    let nb = if ctx.thorough() { 400 } else { 48 };
+    let nb = if ctx.thorough() { 2000 } else { 48 };
     for b in 0..nb {
         id += 1;
         if ctx.mine(id) {
